@@ -187,6 +187,22 @@ fn scenarios(quick: bool) -> Vec<Scenario> {
         vec![vec![(M::C, 0)], vec![(M::C, 1)], vec![(M::C, 2)]],
     ));
 
+    // S8: answers produced through a value lent by the instance the call runs on
+    let s8 = vec![single(M::A, Entry::EachCall, 7, vec![seg(Resp::AnsArc(VIA_REF_ANSWER_ID + 1), Quant::Open)])];
+    base.push(("S8-lent-answer-2x1".into(), s8.clone(), vec![vec![(M::A, 0)], vec![(M::A, 1)]]));
+    base.push((
+        "S8-lent-answer-2x(2,1)".into(),
+        s8.clone(),
+        vec![vec![(M::A, 0), (M::A, 2)], vec![(M::A, 1)]],
+    ));
+    if !quick {
+        base.push((
+            "S8-lent-answer-3x1".into(),
+            s8,
+            vec![vec![(M::A, 0)], vec![(M::A, 1)], vec![(M::A, 2)]],
+        ));
+    }
+
     let mut out = vec![];
     for (name, clauses, threads) in base {
         for sharing in [Sharing::Clones, Sharing::SharedRef] {
